@@ -234,8 +234,7 @@ _FN = None
 def fn_table():
     global _FN
     if _FN is None:
-        txt = open(os.path.join(COQ, "theories", "Dispatch.v")).read()
-        txt += open(os.path.join(COQ, "theories", "GenDispatch.v")).read()
+        txt = "".join(open(f).read() for f in sorted(glob.glob(os.path.join(COQ, "theories", "*.v"))))
         _FN = {name: int(num) for num, name in re.findall(r"\(\*\s*FN\s+(\d+)\s+([A-Za-z0-9_]+)", txt)}
     return _FN
 
